@@ -399,8 +399,13 @@ class OrderGen:
         r = self.rnd
         if d <= 0 or r.random() < 0.22:
             return self.leaf()
-        k = wchoice(r, [("arith", 5), ("lop", 2), ("rop", 1.5), ("list", 2), ("map", 1.2), ("call", 3), ("tern", 2.5), ("asg", 2.5), ("un", 1), ("pre", 0.8), ("post", 0.8), ("pst", 0.8), ("in", 1.2), ("notin", 0.5)])
+        k = wchoice(r, [("arith", 5), ("lop", 2), ("rop", 1.5), ("list", 2), ("map", 1.2), ("call", 3), ("tern", 2.5), ("asg", 2.5), ("un", 1), ("pre", 0.8), ("post", 0.8), ("pst", 0.8), ("in", 1.2), ("notin", 0.5), ("andor", 1.0)])
         n = lambda: self.node(d - 1)
+        if k == "andor":
+            # prefix AND / OR over a list literal whose elements are observable and yield booleans
+            items = [self.cond(d) if r.random() < 0.7 else self.call(["bool", r.random() < 0.6]) for _ in range(r.randint(1, 4))]
+            e = ["un", r.choice(["AND", "OR"]), ["list", items]]
+            return ["tern", e, n(), n()] if r.random() < 0.4 else e
         if k == "arith":
             a = n()
             return ["bin", r.choice(["+", "-", "*", "+", "=="]), a, a if r.random() < 0.12 else n()]
